@@ -11,7 +11,10 @@ COQ_IMPORTS = ("From Coq Require Import Reals List ZArith Bool.\n"
                "From PV Require Gen.GenFgSetup.\n"
                "From PV Require Import Np.NpZ Np.NpZ2 Gen.GenUtils Gen.GenKernels Gen.GenUtils2 Model.Harness Proofs.KhatriRao.\n")
 RULE = ("exhaustive over small shapes/index sets + seeded random stream; a case is non-trivial unless the shape is "
-        "1-cell or the request is empty; distinct = distinct (op, arguments)")
+        "1-cell or the request is empty; distinct = distinct (op, arguments incl. memory layout / dtype presentation); "
+        "wave 3: array arguments also as F-ordered / strided / negative-stride / offset views and int32 / int16 / uint8 arrays "
+        "(arguments must come back unmodified), row operands over different ranges and with repeated rows, mixed-dtype "
+        "Khatri-Rao operands, tensors with more cells than a narrow index dtype holds, helper outputs fed into the next helper")
 EXPLANATION = ("Theorems are stated over Gen/GenUtils.v, regenerated from pyttb_utils.py on this run; the correspondence "
                "stream additionally runs the same generated functions against pyttb on explicit inputs (guards the translator).")
 
@@ -177,46 +180,187 @@ def gen_cases(rng, tier):
         P = [[rng.randint(-3, 4) for _ in range(R)] for _ in range(rng.randint(1, 4))]
         M = [[rng.randint(-3, 4) for _ in range(R)] for _ in range(rng.randint(1, 3))]
         cases.append(Case("prim_kr_step", {"P": P, "M": M, "R": R}, len(P) > 1 and len(M) > 1))
-    return cases
+    # --- row helpers on operands that span DIFFERENT ranges (search rows outside the bounding box of the source, negative
+    #     entries, one operand a sub-box of the other): key-collapsing / hashing slips alias exactly there
+    for _ in range(1200 if big else 220):
+        k = rng.randint(1, 3)
+        lo_a, lo_b = rng.choice([-2, 0, 0, 1]), rng.choice([-2, 0, 0, 1])
+        w_a, w_b = rng.choice([1, 1, 2, 5]), rng.choice([1, 1, 2, 5])
+        a = [[rng.randint(lo_a, lo_a + w_a) for _ in range(k)] for _ in range(rng.randint(1, 5))]
+        b = [[rng.randint(lo_b, lo_b + w_b) for _ in range(k)] for _ in range(rng.randint(1, 5))]
+        if rng.random() < 0.5:
+            a = [list(x) for x in dict.fromkeys(map(tuple, a))]
+            b = [list(x) for x in dict.fromkeys(map(tuple, b))]
+        for op in ("ismember", "intersect", "setdiff", "union"):
+            cases.append(Case(op, {"a": a, "b": b, "k": k}, True))
+    # --- Khatri-Rao of operands of DIFFERENT dtypes (int / float32 / float64, half-integer values): the product must
+    #     not depend on which operand comes first
+    for _ in range(400 if big else 120):
+        R = rng.randint(1, 3)
+        k = rng.randint(1, 4)
+        mats = [[[rng.randint(-3, 4) for _ in range(R)] for _ in range(rng.randint(1, 3))] for _ in range(k)]
+        dts = [rng.choice(KR_DTYPES) for _ in range(k)]
+        cases.append(Case("khatrirao", {"mats": mats, "reverse": rng.random() < 0.5, "dts": dts,
+                                        "lay": [rng.choice(LAYOUTS), "int64"]}, k > 1))
+    # --- histories: the array RETURNED by one helper is fed into the next (its dtype / memory layout is whatever pyttb
+    #     produced: tt_ind2sub returns a transposed view, tt_union_rows a float array when an operand is empty)
+    for _ in range(400 if big else 120):
+        shp = [rng.randint(1, 4) for _ in range(rng.randint(1, 4))]
+        subs = [[rng.randrange(d) for d in shp] for _ in range(rng.randint(0, 5))]
+        cases.append(Case("roundtrip", {"shape": shp, "subs": subs}, math.prod(shp) > 1 and bool(subs)))
+        k = rng.randint(1, 3)
+        a = [[rng.randint(0, 2) for _ in range(k)] for _ in range(rng.randint(0, 4))]
+        b = [[rng.randint(0, 2) for _ in range(k)] for _ in range(rng.randint(0, 4))]
+        cases.append(Case("chain_rows", {"a": a, "b": b, "k": k}, bool(a) or bool(b)))
+    # --- magnitudes: tensors with more cells than a narrow index dtype can hold, and with > 2^32 cells
+    for _ in range(120 if big else 40):
+        shp = rng.choice([[16, 16], [7, 40], [300], [200, 200, 1], [2, 3, 50, 2], [100000, 100000, 1000], [3, 2 ** 31, 5],
+                          [65536, 65536], [1, 2 ** 40, 2]])
+        n = math.prod(shp)
+        dt = rng.choice(["int64", "int64", "int32", "int16", "uint8"])
+        hi = min(n - 1, {"int64": 2 ** 62, "int32": 2 ** 31 - 1, "int16": 2 ** 15 - 1, "uint8": 255}[dt])
+        lo = 0 if dt == "uint8" else max(-n, -hi - 1)
+        idx = [rng.choice([0, hi, lo, rng.randint(lo, hi), rng.randint(lo, hi)]) for _ in range(rng.randint(1, 4))]
+        cases.append(Case("ind2sub", {"shape": shp, "idx": idx, "lay": [rng.choice(LAYOUTS), dt]}, True))
+        subs = [[rng.choice([0, d - 1, rng.randrange(d)]) for d in shp] for _ in range(rng.randint(1, 3))]
+        sdt = "int64" if max(shp) > 2 ** 31 - 1 else rng.choice(["int64", "int32"])
+        cases.append(Case("sub2ind", {"shape": shp, "subs": subs, "lay": [rng.choice(LAYOUTS), sdt]}, True))
+    # --- memory layout / dtype presentation of the SAME arguments: every helper case above may be replayed with its
+    #     array arguments as Fortran-ordered, non-contiguous (strided), negative-stride views, or int32 / uint8 / int16
+    #     arrays; the answer must not depend on it and no helper may write into its arguments
+    extra = []
+    frac = 0.35 if big else 0.2
+    for c in cases:
+        if c.op in LAYOUT_OPS and "lay" not in c.args and rng.random() < frac:
+            lay = rng.choice(LAYOUTS[1:])
+            dt = rng.choice(["int64", "int64", "int32", "int16", "uint8"])
+            if dt == "uint8" and _has_negative(c.args):
+                dt = "int32"
+            a2 = dict(c.args)
+            a2["lay"] = [lay, dt]
+            extra.append(Case(c.op, a2, c.nontrivial))
+    return cases + extra
 
 
-def _mat(np, m, k):
-    return np.array(m, dtype=int).reshape((len(m), k))
+LAYOUTS = ("C", "F", "strided", "neg", "offset")
+LAYOUT_OPS = ("sub2ind", "ind2sub", "dimscheck", "ismember", "intersect", "setdiff", "union", "khatrirao", "wrapdims",
+              "roundtrip", "chain_rows")
+KR_DTYPES = ("f8", "f4", "i8", "i4", "h8", "h4")       # h = half-integers (value / 2) stored as float64 / float32
+
+
+def _has_negative(args):
+    def neg(x):
+        if isinstance(x, bool) or x is None or isinstance(x, str):
+            return False
+        if isinstance(x, (list, tuple)):
+            return any(neg(y) for y in x)
+        return isinstance(x, (int, float)) and x < 0
+    return any(neg(v) for k_, v in args.items() if k_ not in ("N", "M", "k", "reverse"))
+
+
+def _present(np, data, shape, lay, track, dtype=None):
+    """the array `data` reshaped to `shape`, presented in the memory layout / dtype lay = [layout, dtype]; the array and a
+    pristine copy are appended to `track` (for the no-mutation check)"""
+    layout, dt = (lay or ["C", "int64"])
+    base = np.array(data, dtype=dtype or dt).reshape(shape)
+    if layout == "C":
+        arr = np.ascontiguousarray(base)
+    elif layout == "F":
+        arr = np.asfortranarray(base)
+    elif layout == "strided":        # every second element of a larger buffer along each axis
+        big_ = np.full(tuple(2 * s_ + 1 for s_ in base.shape), 7, dtype=base.dtype)
+        big_[tuple(slice(0, 2 * s_, 2) for s_ in base.shape)] = base
+        arr = big_[tuple(slice(0, 2 * s_, 2) for s_ in base.shape)]
+    elif layout == "neg":            # negative strides along every axis
+        rev = tuple(slice(None, None, -1) for _ in base.shape)
+        arr = np.ascontiguousarray(base[rev])[rev]
+    else:                            # "offset": a window inside a larger C-ordered buffer
+        big_ = np.full(tuple(s_ + 2 for s_ in base.shape), 9, dtype=base.dtype)
+        win = tuple(slice(1, s_ + 1) for s_ in base.shape)
+        big_[win] = base
+        arr = big_[win]
+    assert arr.shape == base.shape and np.array_equal(arr, base)
+    track.append((arr, base.copy()))
+    return arr
+
+
+def _mutated(np, track):
+    return any(not (x.shape == y.shape and x.dtype == y.dtype and np.array_equal(x, y)) for x, y in track)
 
 
 def run_impl(c):
     import numpy as np
+    track = []
+    o = _run_impl(c, np, track)
+    if "ok" in o and _mutated(np, track):
+        return {"mutated": True, "ok": o["ok"]}
+    return o
+
+
+def _run_impl(c, np, track):
     import pyttb.pyttb_utils as U
     a = c.args
+    lay = a.get("lay")
+
+    def mat(m, k):
+        return _present(np, m, (len(m), k), lay, track)
+
+    def vec(v):
+        return None if v is None else _present(np, v, (len(v),), lay, track)
     try:
         if c.op == "sub2ind":
-            subs = np.array(a["subs"], dtype=int).reshape((len(a["subs"]), len(a["shape"])))
-            r = U.tt_sub2ind(tuple(a["shape"]), subs)
+            r = U.tt_sub2ind(tuple(a["shape"]), mat(a["subs"], len(a["shape"])))
             return {"ok": [int(x) for x in np.asarray(r).ravel()]}
         if c.op == "ind2sub":
-            r = U.tt_ind2sub(tuple(a["shape"]), np.array(a["idx"], dtype=int))
+            r = U.tt_ind2sub(tuple(a["shape"]), vec(a["idx"]))
             return {"ok": [[int(x) for x in row] for row in np.asarray(r).reshape((-1, len(a["shape"])))]}
         if c.op == "dimscheck":
-            dims = None if a["dims"] is None else np.array(a["dims"], dtype=int)
-            excl = None if a["excl"] is None else np.array(a["excl"], dtype=int)
-            s, v = U.tt_dimscheck(a["N"], a["M"], dims, excl)
+            s, v = U.tt_dimscheck(a["N"], a["M"], vec(a["dims"]), vec(a["excl"]))
             return {"ok": [[int(x) for x in s], None if v is None else [int(x) for x in v]]}
         if c.op == "ismember":
-            m, r = U.tt_ismember_rows(_mat(np, a["a"], a["k"]), _mat(np, a["b"], a["k"]))
+            m, r = U.tt_ismember_rows(mat(a["a"], a["k"]), mat(a["b"], a["k"]))
             return {"ok": [[bool(x) for x in m], [int(x) for x in r]]}
         if c.op == "intersect":
-            r = U.tt_intersect_rows(_mat(np, a["a"], a["k"]), _mat(np, a["b"], a["k"]))
+            r = U.tt_intersect_rows(mat(a["a"], a["k"]), mat(a["b"], a["k"]))
             return {"ok": [int(x) for x in np.asarray(r).ravel()]}
         if c.op == "setdiff":
-            r = U.tt_setdiff_rows(_mat(np, a["a"], a["k"]), _mat(np, a["b"], a["k"]))
+            r = U.tt_setdiff_rows(mat(a["a"], a["k"]), mat(a["b"], a["k"]))
             return {"ok": [int(x) for x in np.asarray(r).ravel()]}
         if c.op == "union":
-            r = U.tt_union_rows(_mat(np, a["a"], a["k"]), _mat(np, a["b"], a["k"]))
+            r = U.tt_union_rows(mat(a["a"], a["k"]), mat(a["b"], a["k"]))
             return {"ok": [[int(x) for x in row] for row in np.asarray(r).reshape((-1, a["k"]))]}
+        if c.op == "roundtrip":
+            ks = U.tt_sub2ind(tuple(a["shape"]), mat(a["subs"], len(a["shape"])))
+            back = U.tt_ind2sub(tuple(a["shape"]), ks)           # pyttb's own output goes back in
+            again = U.tt_sub2ind(tuple(a["shape"]), back)
+            return {"ok": [[int(x) for x in np.asarray(ks).ravel()],
+                           [[int(x) for x in row] for row in np.asarray(back).reshape((-1, len(a["shape"])))],
+                           [int(x) for x in np.asarray(again).ravel()]]}
+        if c.op == "chain_rows":
+            A, B = mat(a["a"], a["k"]), mat(a["b"], a["k"])
+            u = U.tt_union_rows(A, B)
+            track.append((u, u.copy()))
+            i = U.tt_intersect_rows(u, A)
+            d = U.tt_setdiff_rows(u, B)
+            m, r = U.tt_ismember_rows(A, u)
+            return {"ok": [[[int(x) for x in row] for row in np.asarray(u).reshape((-1, a["k"]))],
+                           [int(x) for x in np.asarray(i).ravel()], [int(x) for x in np.asarray(d).ravel()],
+                           [bool(x) for x in m], [int(x) for x in r]]}
         if c.op in ("khatrirao", "khatrirao_zero"):
             from pyttb.khatrirao import khatrirao
-            r = khatrirao(*[np.array(m, dtype=float).reshape((len(m), len(m[0]))) for m in a["mats"]], reverse=a["reverse"])
-            return {"ok": [[int(x) for x in row] for row in r]}
+            dts = a.get("dts") or ["f8"] * len(a["mats"])
+            np_dt = {"f8": np.float64, "f4": np.float32, "i8": np.int64, "i4": np.int32, "h8": np.float64, "h4": np.float32}
+            ms = []
+            scale = 1
+            for m, d in zip(a["mats"], dts):
+                vals = [[x / 2 for x in row] for row in m] if d[0] == "h" else m
+                scale *= 2 if d[0] == "h" else 1
+                ms.append(_present(np, vals, (len(m), len(m[0])), [(lay or ["C"])[0], None], track, dtype=np_dt[d]))
+            r = khatrirao(*ms, reverse=a["reverse"])
+            out = [[float(x) * scale for x in row] for row in np.asarray(r)]
+            if any(not x.is_integer() for row in out for x in row):
+                return {"nonint": True, "ok": [[repr(x) for x in row] for row in out]}
+            return {"ok": [[int(x) for x in row] for row in out]}
         if c.op == "fg_setup":
             import pyttb as ttb
             from pyttb.gcp import fg_setup
@@ -231,15 +375,13 @@ def run_impl(c):
             fh, gh, lb = fg_setup.setup(Objectives[a["objective"]], data, a["param"])
             return {"ok": {"neginf": bool(lb == -np.inf), "lb": None if lb == -np.inf else float(lb)}}
         if c.op == "wrapdims":
-            rd = None if a["rd"] is None else np.array(a["rd"], dtype=int)
-            cd = None if a["cd"] is None else np.array(a["cd"], dtype=int)
-            r, cc = U.gather_wrap_dims(a["N"], rd, cd, a["cy"])
+            r, cc = U.gather_wrap_dims(a["N"], vec(a["rd"]), vec(a["cd"]), a["cy"])
             return {"ok": [[int(x) for x in np.asarray(r).ravel()], [int(x) for x in np.asarray(cc).ravel()]]}
         if c.op == "min_split":
             from pyttb.tensor import min_split
             return {"ok": int(min_split(tuple(a["shape"])))}
         if c.op == "prim_unique_rows":
-            u, i = np.unique(_mat(np, a["m"], a["k"]), axis=0, return_index=True)
+            u, i = np.unique(np.array(a["m"], dtype=int).reshape((len(a["m"]), a["k"])), axis=0, return_index=True)
             return {"ok": [[[int(x) for x in r] for r in u], [int(x) for x in i]]}
         if c.op == "prim_argsort":
             return {"ok": [int(x) for x in np.argsort(np.array(a["v"], dtype=int))]}
@@ -267,6 +409,8 @@ def run_impl(c):
 
 def coq_check(c, o):
     a = c.args
+    if o.get("mutated") or o.get("nonint"):
+        return "false"      # a helper wrote into its argument / a product that must be integral is not: judged by the oracle
     if c.op == "sub2ind":
         exp = "Err" if "exc" in o else f"(Ok {gzlist(o['ok'])})"
         return f"res_eqb vec_eqb (tt_sub2ind {gzlist(a['shape'])} {gzmat(a['subs'])} OrdF) {exp}"
@@ -294,6 +438,24 @@ def coq_check(c, o):
     if c.op == "union":
         exp = "Err" if "exc" in o else f"(Ok {gzmat(o['ok'])})"
         return f"res_eqb mat_eqb (tt_union_rows {gzmat(a['a'])} {gzmat(a['b'])}) {exp}"
+    if c.op == "roundtrip":
+        call = (f"match tt_sub2ind {gzlist(a['shape'])} {gzmat(a['subs'])} OrdF with Err => None | Ok ks_ => "
+                f"match tt_ind2sub {gzlist(a['shape'])} ks_ OrdF with Err => None | Ok back_ => "
+                f"match tt_sub2ind {gzlist(a['shape'])} back_ OrdF with Err => None | Ok again_ => Some (ks_, back_, again_) end end end")
+        if "exc" in o:
+            return f"match {call} with None => true | Some _ => false end"
+        return (f"match {call} with Some (ks_, back_, again_) => vec_eqb ks_ {gzlist(o['ok'][0])} && "
+                f"mat_eqb back_ {gzmat(o['ok'][1])} && vec_eqb again_ {gzlist(o['ok'][2])} | None => false end")
+    if c.op == "chain_rows":
+        A, B = gzmat(a["a"]), gzmat(a["b"])
+        call = (f"match tt_union_rows {A} {B} with Err => None | Ok u_ => "
+                f"match tt_intersect_rows u_ {A}, tt_setdiff_rows u_ {B}, tt_ismember_rows {A} u_ with "
+                f"| Ok i_, Ok d_, Ok (m_, r_) => Some (u_, i_, d_, m_, r_) | _, _, _ => None end end")
+        if "exc" in o:
+            return f"match {call} with None => true | Some _ => false end"
+        u, i, d, m, r = o["ok"]
+        return (f"match {call} with Some (u_, i_, d_, m_, r_) => mat_eqb u_ {gzmat(u)} && vec_eqb i_ {gzlist(i)} && "
+                f"vec_eqb d_ {gzlist(d)} && bvec_eqb m_ {gblist(m)} && vec_eqb r_ {gzlist(r)} | None => false end")
     if c.op == "khatrirao":
         ms = "[" + "; ".join(gzmat(m) for m in a["mats"]) + "]"
         exp = "None" if "exc" in o else f"(Some {gzmat(o['ok'])})"
@@ -354,6 +516,11 @@ def coq_check(c, o):
 def oracle(c, o):
     """independent brute-force statement of what C17 demands of pyttb's output (pure Python, no numpy)"""
     a = c.args
+    if o.get("mutated"):
+        return f"{c.op} wrote into its argument array(s) (presentation {a.get('lay')})"
+    if o.get("nonint"):
+        return (f"Khatri-Rao product of matrices with dtypes {a.get('dts')} is {o['ok']} (scaled by 2 per half-integer "
+                "operand): not the exact product of the entries")
     if c.op == "sub2ind":
         shp = a["shape"]
         valid = all(len(r) == len(shp) and all(0 <= x < d for x, d in zip(r, shp)) for r in a["subs"])
@@ -524,13 +691,41 @@ def oracle(c, o):
         return None
     if c.op == "union":
         A, B = a["a"], a["b"]
-        if len({tuple(x) for x in A}) != len(A) or len({tuple(x) for x in B}) != len(B):
-            return None      # repeated rows: outside the well-formed (duplicate-free) contract
         if "exc" in o:
             return f"rejected ({o['exc']})"
-        want = [r for r in B if r not in A] + A
+
+        def first_occurrences(rows):
+            out = []
+            for r in rows:
+                if r not in out:
+                    out.append(r)
+            return out
+        # set union, every row once (theorem C17_union_rows): new rows of B in order of first occurrence, then those of A
+        want = first_occurrences([r for r in B if r not in A]) + first_occurrences(A)
         if o["ok"] != want:
-            return f"union {o['ok']} is not (rows of B not in A, in B's order) + A = {want}"
+            return f"union {o['ok']} is not (distinct rows of B not in A, in B's order) + (distinct rows of A) = {want}"
+        return None
+    if c.op == "roundtrip":
+        if "exc" in o:
+            return f"in-range subscripts rejected somewhere in sub2ind -> ind2sub -> sub2ind ({o['exc']})"
+        ks, back, again = o["ok"]
+        if back != a["subs"] or again != ks:
+            return f"sub2ind -> ind2sub -> sub2ind is not the identity: {a['subs']} -> {ks} -> {back} -> {again}"
+        return None
+    if c.op == "chain_rows":
+        if "exc" in o:
+            return f"rejected ({o['exc']})"
+        A, B = a["a"], a["b"]
+        u, i, d, m, r = o["ok"]
+        dA = [x for n_, x in enumerate(A) if x not in A[:n_]]
+        if any(not (0 <= x < len(u)) for x in i + d):
+            return "index outside the union"
+        if [u[x] for x in i] != dA:
+            return f"union(A, B)[intersect(union(A, B), A)] = {[u[x] for x in i]} is not the distinct rows of A {dA}"
+        if sorted(u[x] for x in d) != sorted(x for x in dA if x not in B):
+            return f"union(A, B)[setdiff(union(A, B), B)] = {[u[x] for x in d]} is not rows(A) minus rows(B)"
+        if not all(m) or [u[x] for x in r] != A:
+            return f"rows of A not located in union(A, B): {m}, {r}"
         return None
     if c.op == "khatrirao":
         mats = a["mats"][::-1] if a["reverse"] else a["mats"]
@@ -570,5 +765,60 @@ def _union_unsorted_b(c):
     return b != sorted(set(b))
 
 
-TRIGGERS = {"union_unsorted_b": _union_unsorted_b}
-WITNESSES = {"C17-UNION": _union_witness}
+def _dupA_witness():
+    """A-41: intersect / setdiff with repeated rows in the first argument (the generated model is faithful to the code, so
+    no correspondence mismatch arises and no trigger is needed; the theorems C17_*_dupA_refuted carry the refutation)"""
+    import numpy as np
+    import pyttb.pyttb_utils as U
+    A = np.array([[1], [1], [2]])
+    B = np.array([[2]])
+    i = [int(x) for x in U.tt_intersect_rows(A.copy(), B.copy())]
+    d = [int(x) for x in U.tt_setdiff_rows(A.copy(), B.copy())]
+    if i != [2] or d != [0]:
+        return (f"A=[[1],[1],[2]], B=[[2]]: tt_intersect_rows = {i} (row 2 of A is the common row), "
+                f"tt_setdiff_rows = {d} (only row 0 / its repeat is not in B)")
+    return None
+
+
+def _wrap_unsigned_bc0(c):
+    a = c.args
+    return (c.op == "wrapdims" and (a.get("lay") or ["", ""])[1].startswith("uint") and a["cy"] == "bc"
+            and a["rd"] == [0] and a["cd"] is None)
+
+
+def _wrap_uint_witness():
+    import numpy as np
+    import pyttb.pyttb_utils as U
+    with np.errstate(over="ignore"):
+        r, cc = U.gather_wrap_dims(3, np.array([0], dtype=np.uint8), None, "bc")
+    got = ([int(x) for x in r], [int(x) for x in cc])
+    if got != ([0], [2, 1]):
+        return f"gather_wrap_dims(3, uint8 [0], None, 'bc') = ({got[0]}, {got[1][:4]}... {len(got[1])} modes), expected ([0], [2, 1])"
+    return None
+
+
+_DT_MAX = {"uint8": 255, "int8": 127, "int16": 2 ** 15 - 1, "int32": 2 ** 31 - 1}
+
+
+def _ind2sub_narrow_dtype(c):
+    """C17-IND2SUB-DTYPE: index array of a narrow integer dtype and a tensor with more cells than that dtype can hold"""
+    import math
+    if c.op != "ind2sub" or not c.args["idx"]:
+        return False
+    dt = (c.args.get("lay") or ["", "int64"])[1]
+    return dt in _DT_MAX and math.prod(c.args["shape"]) > _DT_MAX[dt]
+
+
+def _ind2sub_dtype_witness():
+    import numpy as np
+    import pyttb.pyttb_utils as U
+    try:
+        got = [[int(x) for x in r] for r in U.tt_ind2sub((16, 16), np.array([3], dtype=np.uint8))]
+    except Exception as ex:
+        return f"tt_ind2sub((16, 16), uint8 [3]) raises {type(ex).__name__}: {ex}"
+    return None if got == [[3, 0]] else f"tt_ind2sub((16, 16), uint8 [3]) = {got}"
+
+
+TRIGGERS = {"union_unsorted_b": _union_unsorted_b, "ind2sub_narrow_dtype": _ind2sub_narrow_dtype, "wrap_unsigned_bc0": _wrap_unsigned_bc0}
+WITNESSES = {"C17-UNION": _union_witness, "A-41": _dupA_witness, "C17-WRAP-UINT": _wrap_uint_witness,
+             "C17-IND2SUB-DTYPE": _ind2sub_dtype_witness}
